@@ -33,6 +33,11 @@ CHECKS = {
  'C06': server('C06', 'Concurrency limit, work conservation at every quiescent point, cancelled waiters never run.', 'DESIGN.md §4 C06'),
  'C07': server('C07', 'Cancellation hits only its target; ids reserved exactly while in flight.', 'DESIGN.md §4 C07'),
  'C08': server('C08', 'Crash-free, clean, restartable shutdown for Stop / peer close / Recv error / Send error at every position.', 'DESIGN.md §4 C08'),
+ 'C10': dict(technique='TLA+ model checking (ChanLock: lock-based sender/closer model, TLC exhaustive, plus a must-fail unlocked variant) + TLC trace validation of instrumented-channel begin/end events against the ChanDiscipline monitor, with in-operation overlap probes under gate control',
+        category='model_checking',
+        text='Channel discipline: one Send, one Recv, no Send/Close overlap, one Close per Start/NewClient, whole messages. Design level: spec/ChanLock.tla (every channel-touching site as a process with separate lock/begin/end/unlock steps) is checked exhaustively; the variant with one site outside the lock must violate the invariants. '
+             'Code level: the workloads of the server and client families run with overlap probes: a goroutine is parked INSIDE Send/Close (holding whatever lock the library holds) while every other parked goroutine and concurrent Stop/Notify/CancelRequest/Close calls are released and an extended-quiescence detector (consistent stack snapshot: durable wait or sync.Mutex wait) decides when they have settled; the begin/end events of every trace are validated by TLC against spec/ChanDiscipline.tla.',
+        ref='DESIGN.md §4 C10', note=SERVER_NOTE),
  'C04': client('C04', 'Replies are matched to requests by id for every ordering, grouping, duplication and pollution of the reply stream; ids unique; Batch order.', 'DESIGN.md §4 C04'),
  'C05': client('C05', 'Every operation completes exactly once under reply / context end / Close / EOF / Recv error / Send error / undecodable input; hooks exactly once; nothing transmitted after stop.', 'DESIGN.md §4 C05'),
  'C09': server('C09', 'Server push: Notify/Callback transmission, reply matching, late replies discarded, context end, stop.', 'DESIGN.md §4 C09'),
